@@ -35,6 +35,7 @@ def dispatch (line : String) : IO String := do
   | "dp.encode" :: args => runDirEncode fileOf args
   | "find" :: args => return runFind args
   | "ct.open" :: args => runContainerOpen args
+  | "ct.read" :: args => runContainerRead args
   | ["ping"] => return "pong"
   | _ => return "bad-op"
 
